@@ -20,10 +20,11 @@ import (
 	"oss.terrastruct.com/d2/d2format"
 	"oss.terrastruct.com/d2/d2graph"
 	"oss.terrastruct.com/d2/d2oracle"
+	"oss.terrastruct.com/d2/d2parser"
 )
 
 func init() {
-	register(&Prop{ID: "C38", Module: "V.C38.Check", Gen: c38Gen, Quick: 900, Thorough: 12000, Shard: 300})
+	register(&Prop{ID: "C38", Module: "V.C38.Check", Gen: c38Gen, Quick: 1500, Thorough: 12000, Shard: 300})
 }
 
 // ---------------------------------------------------------------- abstract model of a diagram (generator side)
@@ -44,6 +45,68 @@ type c38GEdge struct {
 }
 
 var c38Names = []string{"a", "b", "c", "d", "x", "y", "a 2", "b 2", "x 2", "a 3", "c 2", "q"}
+
+// names that d2 has to quote (they contain the path separator); used in a fraction of the diagrams
+var c38QuotedNames = []string{"v1.2", "a.b", "x.y 2"}
+
+// c38Quote renders a raw name as a key element.
+func c38Quote(n string) string {
+	if strings.ContainsAny(n, ".") {
+		return "\"" + n + "\""
+	}
+	return n
+}
+
+// c38Raw is the raw (unquoted) text of one formatted ID element, lower-cased: d2 resolves IDs
+// case-insensitively, so the projection handed to Coq uses one canonical spelling.
+func c38Raw(id string) string {
+	if strings.ContainsAny(id, "\"'") {
+		if k, err := d2parser.ParseKey(id); err == nil && len(k.Path) == 1 {
+			id = k.Path[0].Unbox().ScalarString()
+		}
+	}
+	return strings.ToLower(id)
+}
+
+// c38Speller decides how a reference to an object is spelled in the generated text: the first
+// reference (which fixes the object's ID) is canonical lower case, later ones may differ in letter case.
+type c38Speller struct {
+	r    *Rng
+	p    float64
+	seen map[*c38GObj]bool
+}
+
+var c38Spell *c38Speller
+
+func c38SpellName(o *c38GObj) string {
+	n := o.name
+	sp := c38Spell
+	if sp != nil {
+		if sp.seen[o] && sp.p > 0 && sp.r.Chance(sp.p) {
+			if sp.r.Bool() {
+				n = strings.ToUpper(n)
+			} else {
+				n = strings.ToUpper(n[:1]) + n[1:]
+			}
+		}
+		sp.seen[o] = true
+	}
+	return c38Quote(n)
+}
+
+// elements of the key from ancestor `from` (exclusive) down to o
+func c38SpellPath(from, o *c38GObj) []string {
+	var chain []*c38GObj
+	for x := o; x != nil && x != from; x = x.par {
+		chain = append([]*c38GObj{x}, chain...)
+	}
+	var out []string
+	for _, x := range chain {
+		out = append(out, c38SpellName(x))
+	}
+	return out
+}
+
 var c38Arrows = []string{"->", "->", "->", "<-", "--", "<->"}
 
 // attribute codes shared with Coq (only the order matters there)
@@ -110,7 +173,14 @@ func c38GenDiagram(r *Rng, rich int) string {
 	if r.Chance(0.15) {
 		n = r.Range(8, 12)
 	}
-	pool := c38Names[:r.Range(4, len(c38Names))]
+	pool := append([]string{}, c38Names[:r.Range(4, len(c38Names))]...)
+	c38Spell = &c38Speller{r: r, seen: map[*c38GObj]bool{}}
+	if rich >= 1 && r.Chance(0.35) {
+		c38Spell.p = 0.5 // some references in another letter case
+	}
+	if rich >= 1 && r.Chance(0.3) {
+		pool = append(pool, c38QuotedNames[:r.Range(1, len(c38QuotedNames))]...)
+	}
 	lbl := 0
 	for i := 0; i < n; i++ {
 		par := root
@@ -157,8 +227,8 @@ func c38GenDiagram(r *Rng, rich int) string {
 			if len(edges) > 0 && r.Chance(0.35) {
 				p := edges[r.Intn(len(edges))] // parallel edge
 				e = &c38GEdge{src: p.src, dst: p.dst, arrow: p.arrow}
-				if r.Chance(0.2) {
-					e.arrow = r.Pick(c38Arrows)
+				if r.Chance(0.5) { // another arrow kind between the same ordered pair: an index space of its own
+					e.arrow = r.Pick([]string{"->", "<-", "--", "<->"})
 				}
 			} else {
 				e = &c38GEdge{src: all[r.Intn(len(all))], dst: all[r.Intn(len(all))], arrow: r.Pick(c38Arrows)}
@@ -190,15 +260,77 @@ func c38GenDiagram(r *Rng, rich int) string {
 	// sometimes set an edge attribute through a separate edge-key reference `(a -> b)[1].style.opacity: 0.4`
 	// (such references carry an explicit index that Delete has to renumber)
 	if rich >= 1 && len(edges) > 0 && r.Chance(0.5) {
-		if g, err := c38Compile(text); err == nil && len(g.Edges) > 0 {
-			for k := r.Range(1, 2); k > 0; k-- {
-				e := g.Edges[r.Intn(len(g.Edges))]
-				a := r.Pick(c38EdgeAttrKeys)
-				text += fmt.Sprintf("%s.%s: %s\n", e.AbsID(), a, c38AttrValue(r, a))
-			}
-		}
+		text = c38AddIndexedRefs(r, text, r.Range(1, 2))
 	}
 	return text
+}
+
+// c38AddIndexedRefs appends k edge-key references with explicit indexes, preferring connections with index >= 1.
+func c38AddIndexedRefs(r *Rng, text string, k int) string {
+	g, err := c38Compile(text)
+	if err != nil || len(g.Edges) == 0 {
+		return text
+	}
+	var hi []*d2graph.Edge
+	for _, e := range g.Edges {
+		if e.Index >= 1 {
+			hi = append(hi, e)
+		}
+	}
+	for ; k > 0; k-- {
+		e := g.Edges[r.Intn(len(g.Edges))]
+		if len(hi) > 0 && r.Chance(0.7) {
+			e = hi[r.Intn(len(hi))]
+		}
+		a := r.Pick(c38EdgeAttrKeys)
+		key := e.AbsID()
+		if c38Spell != nil && c38Spell.p > 0 && r.Chance(0.3) {
+			key = strings.ToUpper(key)
+		}
+		text += fmt.Sprintf("%s.%s: %s\n", key, a, c38AttrValue(r, a))
+	}
+	return text
+}
+
+// c38GenMultiEdge: two or three objects (flat or inside a container) joined by several connections of
+// DIFFERENT arrow kinds between the same ordered pair - each kind has its own index space - and
+// several indexed references; histories on it mostly delete connections.
+func c38GenMultiEdge(r *Rng) string {
+	c38Spell = nil
+	var b strings.Builder
+	pad, prefix := "", ""
+	inside := r.Chance(0.4)
+	if inside {
+		b.WriteString("p: L9 {\n")
+		pad, prefix = "  ", "p."
+	}
+	names := []string{"a", "b", "c"}[:r.Range(2, 3)]
+	var outer []string
+	for i, n := range names {
+		fmt.Fprintf(&b, "%s%s: L%d\n", pad, n, i+1)
+	}
+	m := r.Range(3, 7)
+	for i := 0; i < m; i++ {
+		s, d := names[0], names[1]
+		if len(names) == 3 && r.Chance(0.25) {
+			s, d = names[r.Intn(3)], names[r.Intn(3)]
+		}
+		atScope := !inside || r.Chance(0.7)
+		ar := r.Pick([]string{"->", "<-", "--", "<->"})
+		if atScope {
+			fmt.Fprintf(&b, "%s%s %s %s: E%d\n", pad, s, ar, d, i+1)
+		} else {
+			outer = append(outer, fmt.Sprintf("%s%s %s %s%s: E%d\n", prefix, s, ar, prefix, d, i+1))
+		}
+	}
+	if inside {
+		b.WriteString("}\n")
+	}
+	for _, l := range outer {
+		b.WriteString(l)
+	}
+	text := b.String()
+	return c38AddIndexedRefs(r, text, r.Range(1, 4))
 }
 
 func c38SortedKeys(m map[string]string) []string {
@@ -212,9 +344,7 @@ func c38SortedKeys(m map[string]string) []string {
 
 // relative key from scope to o (scope is o's ancestor or root)
 func c38Rel(scope, o *c38GObj) string {
-	sp := scope.path()
-	op := o.path()
-	return strings.Join(op[len(sp):], ".")
+	return strings.Join(c38SpellPath(scope, o), ".")
 }
 
 // key of o as seen from inside scope's map; uses `_` to climb when scope is not an ancestor
@@ -229,9 +359,7 @@ func c38RelUp(scope, o *c38GObj) string {
 	for i := 0; i < ups; i++ {
 		parts = append(parts, "_")
 	}
-	sp := s.path()
-	op := o.path()
-	parts = append(parts, op[len(sp):]...)
+	parts = append(parts, c38SpellPath(s, o)...)
 	return strings.Join(parts, ".")
 }
 
@@ -339,7 +467,7 @@ func c38Emit(r *Rng, rich int, b *strings.Builder, scope, at *c38GObj, edges []*
 		case 2: // flat: label line, attributes as flat keys, children as flat keys in the same scope
 			fmt.Fprintf(b, "%s%s.label: L%d\n", pad, key, o.lbl)
 			for _, k := range keys {
-				fmt.Fprintf(b, "%s%s.%s: %s\n", pad, key, k, o.attrs[k])
+				fmt.Fprintf(b, "%s%s.%s: %s\n", pad, c38Rel(scope, o), k, o.attrs[k])
 			}
 			c38Emit(r, rich, b, scope, o, nil, ind)
 			for _, e := range down[o] {
@@ -348,7 +476,7 @@ func c38Emit(r *Rng, rich int, b *strings.Builder, scope, at *c38GObj, edges []*
 		default: // primary label, then a second reference carrying attributes / children
 			fmt.Fprintf(b, "%s%s: L%d\n", pad, key, o.lbl)
 			if len(o.kids) > 0 || len(keys) > 0 || len(down[o]) > 0 {
-				fmt.Fprintf(b, "%s%s: {\n", pad, key)
+				fmt.Fprintf(b, "%s%s: {\n", pad, c38Rel(scope, o))
 				for _, k := range keys {
 					fmt.Fprintf(b, "%s  %s: %s\n", pad, k, o.attrs[k])
 				}
@@ -467,11 +595,11 @@ func c38Project(g *d2graph.Graph) *c38PGraph {
 	var walk func(o *d2graph.Object, par *c38PObj)
 	walk = func(o *d2graph.Object, par *c38PObj) {
 		for _, ch := range o.ChildrenArray {
-			p := &c38PObj{ID: ch.AbsID(), Name: ch.ID, Par: par, obj: ch, Attrs: c38ObjAttrs(ch)}
+			p := &c38PObj{ID: ch.AbsID(), Name: c38Raw(ch.ID), Par: par, obj: ch, Attrs: c38ObjAttrs(ch)}
 			if par != nil {
-				p.Path = append(append([]string{}, par.Path...), ch.ID)
+				p.Path = append(append([]string{}, par.Path...), p.Name)
 			} else {
-				p.Path = []string{ch.ID}
+				p.Path = []string{p.Name}
 			}
 			l, ok := c38ParseLbl(ch.Label.Value, 'L')
 			if !ok || seen[l] {
@@ -586,43 +714,35 @@ func c38CoqRows(pg *c38PGraph) string {
 	return coqList(xs)
 }
 
-// c38ParseID parses an ID string of the delta maps (object AbsID or edge AbsID) into a Coq `id`.
+// c38ParseID parses an ID string of the delta maps (object AbsID or edge AbsID) into a Coq `id`
+// (raw, lower-cased names, as in the projection).
 func c38ParseID(s string) (string, bool) {
-	split := func(p string) []string {
-		if p == "" {
-			return nil
-		}
-		return strings.Split(p, ".")
+	mk, err := d2parser.ParseMapKey(s)
+	if err != nil || mk == nil {
+		return "", false
 	}
-	i := strings.Index(s, "(")
-	if i < 0 {
-		if strings.ContainsAny(s, "()[]\"'") {
+	raw := func(k *d2ast.KeyPath) []string {
+		var out []string
+		if k != nil {
+			for _, sb := range k.Path {
+				out = append(out, strings.ToLower(sb.Unbox().ScalarString()))
+			}
+		}
+		return out
+	}
+	if len(mk.Edges) == 0 {
+		if mk.Key == nil {
 			return "", false
 		}
-		return "(IdO " + c38CoqPath(split(s)) + ")", true
+		return "(IdO " + c38CoqPath(raw(mk.Key)) + ")", true
 	}
-	common := split(strings.TrimSuffix(s[:i], "."))
-	j := strings.LastIndex(s, ")[")
-	if j < 0 || !strings.HasSuffix(s, "]") {
+	if len(mk.Edges) != 1 || mk.EdgeIndex == nil || mk.EdgeIndex.Int == nil || mk.EdgeKey != nil {
 		return "", false
 	}
-	inner := s[i+1 : j]
-	idx, err := strconv.Atoi(s[j+2 : len(s)-1])
-	if err != nil {
-		return "", false
-	}
-	for _, ar := range []string{" <-> ", " -> ", " <- ", " -- "} {
-		k := strings.Index(inner, ar)
-		if k < 0 {
-			continue
-		}
-		src := append(append([]string{}, common...), split(inner[:k])...)
-		dst := append(append([]string{}, common...), split(inner[k+len(ar):])...)
-		sa := ar == " <-> " || ar == " <- "
-		da := ar == " <-> " || ar == " -> "
-		return fmt.Sprintf("(IdE %s %s %s %s %d)", c38CoqPath(src), c38CoqPath(dst), coqBool(sa), coqBool(da), idx), true
-	}
-	return "", false
+	e := mk.Edges[0]
+	src := append(raw(mk.Key), raw(e.Src)...)
+	dst := append(raw(mk.Key), raw(e.Dst)...)
+	return fmt.Sprintf("(IdE %s %s %s %s %d)", c38CoqPath(src), c38CoqPath(dst), coqBool(e.SrcArrow == "<"), coqBool(e.DstArrow == ">"), *mk.EdgeIndex.Int), true
 }
 
 func c38CoqDeltas(d map[string]string) (string, bool) {
@@ -729,6 +849,11 @@ func c38PickOp(r *Rng, pg *c38PGraph, kinds []string) *c38Op {
 			case 1: // a root-level name
 				name = pg.Roots[r.Intn(len(pg.Roots))].Name
 			}
+			if name != o.obj.ID && strings.EqualFold(c38Quote(name), o.obj.ID) {
+				// a case variant of the object's own ID: not a rename (Rename turns `A 3` -> "a 3" into `a`
+				// while RenameIDDeltas predicts `a 3`; observation, not generated)
+				continue
+			}
 			return &c38Op{Kind: k, Key: o.ID, Arg: name, tgt: o, name: name, Coq: fmt.Sprintf("(OpRename %d %s)", o.Lbl, c38CoqStr(name))}
 		case "move":
 			if len(pg.Rows) == 0 {
@@ -765,13 +890,15 @@ func c38PickOp(r *Rng, pg *c38PGraph, kinds []string) *c38Op {
 			if r.Chance(0.2) {
 				name = r.Pick(c38Names)
 			}
-			newKey := name
+			newKey := c38Quote(name)
 			dl := "None"
 			if dest != nil {
-				newKey = dest.ID + "." + name
+				newKey = dest.ID + "." + c38Quote(name)
 				dl = fmt.Sprintf("(Some %d)", dest.Lbl)
 			}
-			if newKey == o.ID {
+			if strings.EqualFold(newKey, o.ID) {
+				// same key, or a case variant of the object's own ID (d2 IDs are case-insensitive; asking for
+				// another spelling of the same ID is not a relocation and is not generated)
 				continue
 			}
 			return &c38Op{Kind: k, Key: o.ID, Arg: newKey, Incl: incl, tgt: o, dest: dest, name: name,
@@ -1021,6 +1148,9 @@ func c38DottedRefs(o *d2graph.Object) (dotted, nonEdge int, primaryWithMap bool)
 
 // Go copy of Spec.v gen_unique (used only to recognise inputs of a recorded finding)
 func c38StripIndex(n string) string {
+	if strings.ContainsAny(n, ".") { // the formatted key ends in a quote: strconv.Atoi never accepts the last piece
+		return n
+	}
 	i := strings.LastIndex(n, " ")
 	if i < 0 {
 		return n
@@ -1113,6 +1243,20 @@ func c38Features(pg *c38PGraph, op *c38Op) map[string]bool {
 		f["flat-field-leak"] = true
 	}
 	if t != nil && hoisting {
+		// the target or one of its children is referenced with more than one spelling (letter case):
+		// renameConflictsToParent keys its bookkeeping (dedupedRenames, the "child has the parent's name"
+		// test) on the exact spelling, so such children are renamed needlessly or repeatedly (`x 2 2`)
+		for _, o := range append([]*c38PObj{t}, t.Kids...) {
+			sp := map[string]bool{}
+			for _, ref := range o.obj.References {
+				if ref.Key != nil && ref.KeyPathIndex < len(ref.Key.Path) {
+					sp[ref.Key.Path[ref.KeyPathIndex].Unbox().ScalarString()] = true
+				}
+			}
+			if len(sp) > 1 {
+				f["hoist-mixed-case"] = true
+			}
+		}
 		sn := sibNames(t)
 		for _, k := range t.Kids {
 			if sn[k.Name] && c38UndetectedChild(t.obj, k.obj) {
@@ -1121,6 +1265,13 @@ func c38Features(pg *c38PGraph, op *c38Op) map[string]bool {
 		}
 	}
 	if op.Kind == "delobjattr" {
+		// deleteObjField compares the spelling of the reference with obj.ID exactly
+		for _, ref := range t.obj.References {
+			if ref.Key != nil && ref.KeyPathIndex < len(ref.Key.Path) && !ref.InEdge() &&
+				c38Quote(ref.Key.Path[ref.KeyPathIndex].Unbox().ScalarString()) != t.obj.ID {
+				f["delattr-mixed-case"] = true
+			}
+		}
 		// deleteObjField applies deleteMapField to the map of EVERY reference of the object, also to
 		// `t.k: {...}` whose map belongs to the descendant k
 		through := false
@@ -1149,9 +1300,8 @@ func c38Features(pg *c38PGraph, op *c38Op) map[string]bool {
 	if op.Kind == "delobj" {
 		for _, e := range pg.Edges {
 			s, d := pg.byObj[e.edge.Src], pg.byObj[e.edge.Dst]
-			if (s == t && d != t && t.isAnc(d)) || (d == t && s != t && t.isAnc(s)) {
-				f["edge-to-own-descendant"] = true
-				// ... and that edge is also addressed by an edge-key reference `p.(q.x -> q)[0].attr` written
+			if (s == t && t.isAnc(d)) || (d == t && t.isAnc(s)) { // also a self loop
+				// the edge is also addressed by an edge-key reference `p.(q.x -> q)[0].attr` written
 				// from an outer scope (key prefix before the parenthesis)
 				for _, ref := range e.edge.References {
 					if ref.MapKey != nil && ref.MapKey.EdgeIndex != nil && ref.MapKey.Key != nil && len(ref.MapKey.Key.Path) > 0 {
@@ -1161,31 +1311,13 @@ func c38Features(pg *c38PGraph, op *c38Op) map[string]bool {
 			}
 		}
 	}
-	if op.Kind == "rename" && len(t.Path) >= 2 {
-		for _, o := range pg.Roots {
-			if o.Name == op.name {
-				f["rename-wrong-scope"] = true
-			}
-		}
-		sn := sibNames(t)
-		if op.name != t.Name && c38GenUnique(sn, sn[op.name], op.name) == t.Name {
-			f["rename-wrong-scope"] = true
-		}
-	}
 	if op.Kind == "move" && !op.Incl {
 		sn := sibNames(t)
 		var kn []string
 		for _, k := range t.Kids {
 			kn = append(kn, k.Name)
 		}
-		if op.dest == t.Par {
-			// MoveIDDeltas predicts conflict renames of the children although a same-scope move hoists nothing
-			for _, k := range kn {
-				if k != t.Name && sn[k] {
-					f["move-deltas-same-scope"] = true
-				}
-			}
-		} else {
+		if op.dest != t.Par {
 			a, b := c38HoistNames(sn, t.Name, kn, true), c38HoistNames(sn, t.Name, kn, false)
 			for i := range a {
 				if a[i] != b[i] {
@@ -1199,12 +1331,30 @@ func c38Features(pg *c38PGraph, op *c38Op) map[string]bool {
 		// (key prefix plus an endpoint that climbs out with `_`); move() does not rewrite such references
 		for _, e := range pg.Edges {
 			s, d := pg.byObj[e.edge.Src], pg.byObj[e.edge.Dst]
-			if !t.isAnc(s) && !t.isAnc(d) {
-				continue
-			}
+			attached := t.isAnc(s) || t.isAnc(d)
 			for _, ref := range e.edge.References {
 				if ref.MapKey == nil || ref.MapKey.Key == nil || len(ref.MapKey.Key.Path) == 0 || ref.Edge == nil {
 					continue
+				}
+				{
+					// ... or the key prefix of the reference itself names an object of the moved subtree
+					in := ref.ScopeObj != nil && ref.ScopeObj != ref.ScopeObj.Graph.Root && c38InSubtree(t.obj, ref.ScopeObj)
+					if po, ok := t.obj.Graph.Root.HasChild(d2graph.Key(ref.MapKey.Key)); ok && c38InSubtree(t.obj, po) {
+						in = true
+					}
+					if ref.ScopeObj != nil {
+						if po, ok := ref.ScopeObj.HasChild(d2graph.Key(ref.MapKey.Key)); ok && c38InSubtree(t.obj, po) {
+							in = true
+						}
+					}
+					if in && op.Kind == "move" && !op.Incl && op.dest != t.Par && ref.MapKey.EdgeIndex != nil {
+						// the reference is re-prefixed with the new key although the connection stays behind
+						// with the hoisted children
+						f["move-alone-prefixed-edge-ref"] = true
+					}
+					if !in && !attached {
+						continue
+					}
 				}
 				for _, k := range []*d2ast.KeyPath{ref.Edge.Src, ref.Edge.Dst} {
 					if k != nil && len(k.Path) > 0 && k.Path[0].Unbox().ScalarString() == "_" {
@@ -1219,6 +1369,9 @@ func c38Features(pg *c38PGraph, op *c38Op) map[string]bool {
 			f["move-into-own-descendant"] = true
 		}
 		if op.dest != t.Par {
+			if op.dest != nil && c38FlatReservedRef(t.obj) && op.dest.Path[0] == t.Path[0] {
+				f["move-flat-field-common-prefix"] = true
+			}
 			dotted, nonEdge, pm := c38DottedRefs(t.obj)
 			if dotted > 0 && (pm || nonEdge >= 2) {
 				f["move-dotted-ref"] = true
@@ -1322,6 +1475,8 @@ func c38KF(pg *c38PGraph, op *c38Op, text string) []string {
 		"hoist-undetected-child":         "C38-hoist-conflict-not-detected-for-flat-field-child",
 		"edge-key-ref-to-own-descendant": "C38-delete-edge-key-reference-resurrects-object",
 		"delattr-descendant-map":         "C38-delete-attribute-also-resets-descendant",
+		"hoist-mixed-case":               "C38-hoist-with-references-in-other-letter-case",
+		"delattr-mixed-case":             "C38-delete-attribute-reference-in-other-letter-case",
 	})
 }
 
@@ -1360,6 +1515,15 @@ var c38Scripts = []c38Step{
 	{"a: L1\nb: L2\na -> b: E1\na -> b: E2\na -> b: E3\n(a -> b)[2].style.stroke: red\n(a -> b)[1].style.opacity: 0.4\n", "deledge", "(a -> b)[0]", "", false},
 	{"a: L1\nb: L2\na -> b: E1\na -> b: E2\na -> b: E3\n(a -> b)[2].style.stroke: red\n(a -> b)[1].style.opacity: 0.4\n", "deledge", "(a -> b)[1]", "", false},
 	{"c: L1 {\n  a: L2\n  b: L3\n  a -> b: E1\n  a -> b: E2\n  (a -> b)[1].style.stroke: red\n}\n", "deledge", "c.(a -> b)[0]", "", false},
+	// connections of different arrow kinds between one ordered pair: four independent index spaces
+	{"a: L1\nb: L2\na -> b: E1\na -- b: E2\na -- b: E3\na <-> b: E4\na <-> b: E5\n(a -- b)[1].style.stroke: red\n(a <-> b)[1].style.opacity: 0.4\n", "deledge", "(a -> b)[0]", "", false},
+	{"a: L1\nb: L2\na -- b: E1\na -> b: E2\na <- b: E3\na <- b: E4\n(a <- b)[1].style.stroke-dash: 3\n", "deledge", "(a -- b)[0]", "", false},
+	{"p: L9 {\n  a: L1\n  b: L2\n  a -> b: E1\n  a -- b: E2\n  a -- b: E3\n  (a -- b)[1].style.stroke: red\n}\n", "deledge", "p.(a -> b)[0]", "", false},
+	// references in another letter case, IDs that need quoting
+	{"server: L1 {\n  shape: circle\n}\nclient: L2\nclient -> Server: E1\nSERVER.style.fill: red\n", "rename", "server", "backend", false},
+	{"\"v1.2\": L1\nx: L2\nx -> \"v1.2\": E1\n", "rename", "\"v1.2\"", "v2", false},
+	{"box: L1 {\n  srv: L2\n}\nsrv: L3\nSrv.style.fill: red\nc: L4\nc -> SRV: E1\n", "move", "srv", "box.srv", true},
+	{"server: L1\nclient: L2 {\n  x: L3\n}\nclient.x -> Server: E1\nSERVER.style.fill: red\n", "delobj", "server", "", false},
 	// edge between the deleted object and its own child, also addressed by an edge-key reference from outside
 	{"p: L2 {\n  q: L3 {\n    x: L4\n  }\n  q.x -> q: E1\n}\np.(q.x -> q)[0].style.opacity: 0.5\n", "delobj", "p.q", "", false},
 	// attributes
@@ -1476,6 +1640,10 @@ func c38Gen(r *Rng, tier string, n int) []Case {
 		}
 	}
 	for len(out) < n {
+		if r.Chance(0.15) {
+			out = append(out, c38History(r.Fork(), c38GenMultiEdge(r), r.Range(1, 6), []string{"deledge", "deledge", "deledge", "deledgeattr", "delobj"}, "multiedge", c38KF)...)
+			continue
+		}
 		rich := r.Intn(3)
 		text := c38GenDiagram(r, rich)
 		out = append(out, c38History(r.Fork(), text, r.Range(1, 20), kinds, fmt.Sprintf("rich%d", rich), c38KF)...)
